@@ -182,8 +182,10 @@ def body_lines(body: list, style: Style = PLAIN, indent: int = 1, elif_ok: bool 
     return out
 
 
-def fn_src(name: str, params: list[str], body: list, style: Style = PLAIN, defs: list | None = None) -> str:
-    """``defs``: JSON values, the defaults of the last len(defs) parameters (``def f(a, b=3.0)``)."""
+def fn_src(name: str, params: list[str], body: list, style: Style = PLAIN, defs: list | None = None,
+           prelude: list[str] | None = None) -> str:
+    """``defs``: JSON values, the defaults of the last len(defs) parameters (``def f(a, b=3.0)``);
+    ``prelude``: statements put first in the body (function-level imports: ``from m import K_alt as K``)."""
     defs = defs or []
     first = len(params) - len(defs)
     ps = [p + (": float" if style.annotate else "")
@@ -193,7 +195,7 @@ def fn_src(name: str, params: list[str], body: list, style: Style = PLAIN, defs:
         head = f"def {name}({', '.join(ps)}) -> float:"
     else:
         head = f"def {name}({', '.join(ps)}):"
-    return "\n".join([head, *(body_lines(body, style) or ["    pass"])]) + "\n"
+    return "\n".join([head, *("    " + ln for ln in (prelude or [])), *(body_lines(body, style) or ["    pass"])]) + "\n"
 
 
 def module_src(fns: dict, consts: dict | None = None, style: Style = PLAIN, imports: list[str] | None = None,
@@ -210,7 +212,9 @@ def module_src(fns: dict, consts: dict | None = None, style: Style = PLAIN, impo
     lines.append("")
     for name, f in fns.items():
         lines.append("")
-        lines.append(fn_src(name, list(f["params"]), f["body"], (styles or {}).get(name, style), f.get("defs")))
+        # a ready-made source text (function-level imports, factory-made closures ...) takes precedence
+        ready = f.get("srcx" if exact else "src")
+        lines.append(ready or fn_src(name, list(f["params"]), f["body"], (styles or {}).get(name, style), f.get("defs")))
     return "\n".join(lines)
 
 
